@@ -23,7 +23,9 @@ func init() {
 	ref.RegisterNamed("gen.M", reflect.TypeOf(gen.M{}))
 	for n, v := range map[string]any{"gen.NBool": gen.NBool(false), "gen.NInt": gen.NInt(0), "gen.NInt8": gen.NInt8(0), "gen.NInt16": gen.NInt16(0), "gen.NInt32": gen.NInt32(0),
 		"gen.NInt64": gen.NInt64(0), "gen.NUint": gen.NUint(0), "gen.NUint8": gen.NUint8(0), "gen.NUint16": gen.NUint16(0), "gen.NUint32": gen.NUint32(0), "gen.NUint64": gen.NUint64(0),
-		"gen.NFloat32": gen.NFloat32(0), "gen.NFloat64": gen.NFloat64(0), "gen.NString": gen.NString("")} {
+		"gen.NFloat32": gen.NFloat32(0), "gen.NFloat64": gen.NFloat64(0), "gen.NString": gen.NString(""),
+		"gen.NPtrF32": gen.NPtrF32(nil), "gen.NPtrF64": gen.NPtrF64(nil), "gen.NPtrInt": gen.NPtrInt(nil), "gen.NPtrStr": gen.NPtrStr(nil), "gen.NSliceF64": gen.NSliceF64(nil),
+		"gen.NSliceInt": gen.NSliceInt(nil), "gen.NSliceStr": gen.NSliceStr(nil), "gen.NMapSI": gen.NMapSI(nil), "gen.NBytes": gen.NBytes(nil)} {
 		ref.RegisterNamed(n, reflect.TypeOf(v))
 	}
 }
